@@ -137,7 +137,7 @@ func checkC05(rep *vk.Report) {
 		if rep.Skip(idx) {
 			return
 		}
-		rlConcurrent(rep, idx)
+		rlConcurrent(rep, idx, "C05")
 	})
 	nC := scale(rep, 48, 2000)
 	vk.Parallel(nC, 16, func(i int) {
@@ -274,7 +274,7 @@ type rlIn struct {
 	MaxW int64
 }
 
-func rlConcurrent(rep *vk.Report, idx int) {
+func rlConcurrent(rep *vk.Report, idx int, prop string) {
 	r := vk.Rng(rep.Seed, "C05", idx)
 	cfg := genRlCfg(r)
 	u := cfg.unit()
@@ -345,7 +345,7 @@ func rlConcurrent(rep *vk.Report, idx int) {
 		rep.Count("B_histories_linearizable", 1)
 		rep.Distinct(fmt.Sprintf("B|%v|%d|%d|%d", cfg.Smooth, u, cfg.Max, clients))
 	case porcupine.Illegal:
-		rep.Violate(idx, "C05/concurrent-history-not-linearizable", fmt.Sprintf("concurrent limiter history of %d ops is not linearizable w.r.t. the slot/period model (cfg %+v)", len(ops), cfg), map[string]any{"cfg": cfg, "ops": fmt.Sprint(ops)})
+		rep.Violate(idx, prop+"/concurrent-history-not-linearizable", fmt.Sprintf("concurrent limiter history of %d ops is not linearizable w.r.t. the slot/period model (cfg %+v)", len(ops), cfg), map[string]any{"cfg": cfg, "ops": fmt.Sprint(ops)})
 	default:
 		rep.Inconclusive("porcupine timed out on a C05 history")
 	}
